@@ -99,6 +99,15 @@ def dense_chain(psi, phys=None):
     N = psi.N
     sites = list(range(N))
     tens = [psi.A[n].fuse_meta_to_hard() for n in sites]       # meta-fused virtual legs (multiply(mode='meta')) -> one native leg each
+    if psi.pC is None and any(t.get_legs(ax).is_fused() for t in tens for ax in (0, 2)):
+        # bond legs that are hard-fused products may disagree in the dimension kept per fused sector on the two sides of a bond
+        mismatch = False
+        for n in range(N - 1):
+            l1, l2 = tens[n].get_legs(2), tens[n + 1].get_legs(0)
+            d = dict(zip(l1.t, l1.D))
+            mismatch |= any(d.get(t, D) != D for t, D in zip(l2.t, l2.D))
+        if mismatch:
+            return _dense_chain_fused(psi, tens, phys)
     legs = [list(t.get_legs(native=True)) for t in tens]
     if phys is not None:
         for n in range(N):
@@ -164,6 +173,63 @@ def dense_chain(psi, phys=None):
     assert cur.shape[0] == 1 and cur.shape[-1] == 1, cur.shape
     cur = cur.reshape(cur.shape[1:-1])
     return cur * psi.factor
+
+
+class OracleLimit(Exception):
+    """the harness dense contraction cannot re-assemble this chain (not a statement about yastn)"""
+
+
+def _dense_chain_fused(psi, tens, phys):
+    import yastn
+    try:
+        return _dense_chain_fused_(psi, tens, phys)
+    except yastn.YastnError as e:
+        if 'yastn.block()' in str(e):
+            raise OracleLimit('bond legs are sums (block) of hard-fused products that kept different dimensions on the two sides') from None
+        raise
+
+
+def _dense_chain_fused_(psi, tens, phys):
+    """chains whose virtual legs are hard-fused (H @ a, H @ G): the two sides of a bond may have kept different parts of the fused sectors
+    (yastn contracts them through masks), so the virtual legs are unfused into their original components and every component is embedded
+    in the union over the bond."""
+    N, nr = psi.N, psi.nr_phys
+    parts = []
+    for t in tens:
+        nl = nrr = 1
+        while t.get_legs(0).is_fused():
+            t = t.unfuse_legs(axes=0)
+        nl = t.ndim - 1 - nr          # so far: left comps, p, r (fused?) [, p]
+        while t.get_legs(nl + 1).is_fused():
+            t = t.unfuse_legs(axes=nl + 1)
+        nrr = t.ndim - nl - nr
+        parts.append((t, nl, nrr))
+    legs = [list(t.get_legs(native=True)) for t, _, _ in parts]
+    for n in range(N):
+        t, nl, nrr = parts[n]
+        if phys is not None:
+            p = phys[n] if isinstance(phys, (list, tuple)) else phys
+            legs[n][nl] = p
+            if nr == 2:
+                legs[n][nl + 1 + nrr] = p.conj()
+    for n in range(N - 1):
+        (_, nl1, nr1), (_, nl2, _) = parts[n], parts[n + 1]
+        assert nr1 == nl2, (nr1, nl2)
+        for k in range(nr1):
+            u = _bond_union(legs[n][nl1 + 1 + k], legs[n + 1][k].conj())
+            legs[n][nl1 + 1 + k], legs[n + 1][k] = u, u.conj()
+    arrs = []
+    for (t, nl, nrr), ll in zip(parts, legs):
+        X = reassemble(t, ll)
+        sh = X.shape
+        L = int(np.prod(sh[:nl])); R = int(np.prod(sh[nl + 1:nl + 1 + nrr]))
+        X = X.reshape((L, sh[nl], R) + tuple(sh[nl + 1 + nrr:]))
+        arrs.append(X if nr == 1 else X.transpose(0, 1, 3, 2))
+    cur = arrs[0]
+    for n in range(1, N):
+        cur = np.tensordot(cur, arrs[n], axes=(cur.ndim - 1, 0))
+    assert cur.shape[0] == 1 and cur.shape[-1] == 1, cur.shape
+    return cur.reshape(cur.shape[1:-1]) * psi.factor
 
 
 def phys_dims(psi):
